@@ -651,6 +651,22 @@ impl Real {
                 self.set(*out, RSlot::Ctx { ctx, ns: ns.clone() });
                 Outcome::Ok(Ret::Unit)
             }
+            Op::CtxNs { ctx, prefix, uri } => {
+                match self.slots.get_mut(*ctx).and_then(|v| v.as_mut()) {
+                    Some(RSlot::Ctx { ctx: c, ns }) => {
+                        let p = if prefix.is_empty() { None } else { Some(prefix.as_str()) };
+                        ns.retain(|(q, _)| q != prefix);
+                        if uri.is_empty() {
+                            c.remove_ns(p);
+                        } else {
+                            c.add_ns(p, uri);
+                            ns.push((prefix.clone(), uri.clone()));
+                        }
+                        Outcome::Ok(Ret::Unit)
+                    }
+                    _ => Outcome::Skipped,
+                }
+            }
             Op::Query { ctx, doc, expr, out } => {
                 if *doc >= self.docs.len() {
                     return Outcome::Skipped;
